@@ -53,7 +53,10 @@ AfterUseCases == {[op |-> "reuse_after_use", operands |-> s, tree |-> Leaf(1), r
 TwiceCases == {[op |-> "sum", operands |-> <<i, i>>, tree |-> Node(Leaf(1), Leaf(2)), ref |-> SumSeq(<<Pool[i], Pool[i]>>)] : i \in (1..NPool) \ {2}}      \* (2 has the finalizer: twice, the second would be fed a string)
               \cup {[op |-> "sum", operands |-> <<i, j, i>>, tree |-> Node(Node(Leaf(1), Leaf(2)), Leaf(3)), ref |-> SumSeq(<<Pool[i], Pool[j], Pool[i]>>)] : i \in {1, 8}, j \in {2, 3}}
               \cup {[op |-> "resolve", operands |-> <<i, i>>, tree |-> Leaf(1), ref |-> Resolve(<<Pool[i], Pool[i]>>)] : i \in {1, 3, 8}}
-ASSUME LET S == SetToSeq(TwiceCases \cup AfterUseCases \cup DefaultCases \cup ThirdCases \cup SumCases \cup ResolveCases \cup BackendCases \cup SwitchCases \cup ReuseCases)
+\* names given to the resolver mean the pipelines registered under them, whatever the working directory contains
+\* (the driver resolves inside a directory that has a sub-directory of every name)
+CwdCases == {[op |-> "resolve_cwd", operands |-> s, tree |-> Leaf(1), ref |-> Resolve([i \in 1..2 |-> Pool[s[i]]])] : s \in Seqs(2)}
+ASSUME LET S == SetToSeq(CwdCases \cup TwiceCases \cup AfterUseCases \cup DefaultCases \cup ThirdCases \cup SumCases \cup ResolveCases \cup BackendCases \cup SwitchCases \cup ReuseCases)
        IN  ndJsonSerialize(IOEnv.VERIF_OUT, [i \in 1..Len(S) |-> [id |-> i, pool |-> Pool] @@ S[i]])
 Init == x = 0
 Next == UNCHANGED x
